@@ -151,6 +151,9 @@ def run_shard(shard):
                     w, _ = mvdict(a * xi)
                     if any(not same(q.get(k, 0), w.get(k, 0)) for k in set(q) | set(w)):
                         res.violate(violation('generic:div', f'{name} keys {keys}: a/x != a*inv(x)', case, show(w), show(q), repro))
+                    z, _ = mvdict(nmv(alg, (), []) / x)          # an empty numerator is the zero element
+                    if any(not iszero(v) for v in z.values()):
+                        res.violate(violation('generic:empty-numerator', f'{name} keys {keys}: (empty multivector)/x is not zero', case, '{}', show(z), repro))
                     n1, _ = mvdict(3 / x)
                     n2, _ = mvdict(3 * xi)
                     if any(not same(n1.get(k, 0), n2.get(k, 0)) for k in set(n1) | set(n2)):
